@@ -412,12 +412,13 @@ def explore_syscalls(ck: Check, writer: str, states, tmp_root: Path, worst: list
     frontier = []
     for st in states:
         d0 = Path(tempfile.mkdtemp(prefix="y-", dir=tmp_root))
-        materialise(d0, st, {"name": 1, "new": 0, "old": 0})
+        materialise(d0, st, GEN0)
         frontier.append((d0, st, []))
-    gen = 2
+    gen = FIRST_GEN
     for level in range(1, depth + 1):
         nxt, seen = [], set()
         for d, st, hist in frontier:
+            _st0, gens0 = classify(d, gen)
             calls, tail = run_write_strace(_clone(d, tmp_root), gen, None)
             if not calls:
                 ck.notes.append("strace saw no system call (ptrace not permitted?): syscall-level enumeration skipped")
@@ -443,6 +444,8 @@ def explore_syscalls(ck: Check, writer: str, states, tmp_root: Path, worst: list
                         bucket=f"{writer}/syscall{tag}/depth{level}")
                 if not safe_pred(got_st):
                     worst.append((h2, got_st))
+                else:
+                    gen_check(ck, None, worst, h2, st, gens0, got_st, _g, gen)
                 if level < depth and got_st not in seen and pt is not None:
                     seen.add(got_st)
                     nxt.append((d2, got_st, h2))
@@ -491,6 +494,46 @@ def _groups(idx):
     return out
 
 
+GEN0 = {"name": 2, "new": 0, "old": 1}  # generations of the files a scenario starts with (all distinct)
+FIRST_GEN = 3                            # generation of the first checkpoint written on top of them
+
+
+def best_of(st: str, gens: dict):
+    """the generation a restart would use: the file under the name if complete, else .old"""
+    if st[0] == "C":
+        return gens.get("name")
+    if st[2] == "C":
+        return gens.get("old")
+    return None
+
+
+def tagged(st: str, gens: dict) -> str:
+    """directory state with generations, as the driver's tagged commands spell it"""
+    return " ".join(str(gens[p]) if ch == "C" else ch for ch, p in zip(st, PATHS))
+
+
+def gen_check(ck, drv, worst, hist, st0, gens0, st1, gens1, gen, events=None):
+    """generation-level checks after one (interrupted) write of generation `gen`:
+    the property on the real directory (restart checkpoint = previous or new, no other payload appears) and,
+    when the python-level operation trace is known, the tagged model's prediction"""
+    if not inv_pred(st0):
+        return
+    b0, b1 = best_of(st0, gens0), best_of(st1, gens1)
+    known = set(gens0.values()) | {gen}
+    if inv_pred(st1) and b1 not in (b0, gen):
+        worst.append((hist, st1, f"the checkpoint a restart would use went from generation {b0} to generation {b1} "
+                                  f"while generation {gen} was being written"))
+    elif any(g not in known for g in gens1.values()):
+        worst.append((hist, st1, f"a complete file holds generation {sorted(set(gens1.values()) - known)} which was "
+                                  f"neither on disk before nor being written"))
+    if drv and events is not None:
+        rep = drv.ask(f"trun {gen} {tagged(st0, gens0)}" + "".join(" " + e for e in collapse(events)))
+        want = tagged(st1, gens1).replace(" ", ",") + " best " + (str(b1) if b1 is not None else "-")
+        if rep != want:
+            ck.mismatch("generations after crash differ from the tagged model",
+                        {"history": hist, "impl": want, "model": rep})
+
+
 def safe_pred(st: str) -> bool:
     return ("C" in st) and st[0] != "T"
 
@@ -507,8 +550,9 @@ def explore(ck: Check, drv, writer: str, variant: int, depth: int, states, tmp_r
     frontier = []
     for st in states:
         d0 = Path(tempfile.mkdtemp(prefix="b-", dir=tmp_root))
-        materialise(d0, st, {"name": 1, "new": 0, "old": 0})
-        full_events, tail = run_write(_clone(d0, tmp_root), 2, None)
+        materialise(d0, st, GEN0)
+        full_events, tail = run_write(_clone(d0, tmp_root), FIRST_GEN, None)
+        gens0 = {p: GEN0[p] for ch, p in zip(st, PATHS) if ch == "C"}
         pred_ops = None
         if drv:
             rep = drv.ask(f"prog 1 0 {st}")
@@ -524,8 +568,8 @@ def explore(ck: Check, drv, writer: str, variant: int, depth: int, states, tmp_r
                             {"writer": writer, "state": st, "impl": got, "impl_end": tail, "model": pred_ops})
         for k in kill_points(full_events) + [None]:
             d = _clone(d0, tmp_root)
-            events, _t = run_write(d, 2, k) if k != 0 else ([], None)
-            got_st, _g = classify(d, 3)
+            events, _t = run_write(d, FIRST_GEN, k) if k != 0 else ([], None)
+            got_st, _g = classify(d, FIRST_GEN + 1)
             hist = [{"from": st, "kill_after": k, "events": events, "writer": writer, "variant": variant}]
             ck.case(key=(tag, st, k), nontrivial=k != 0,
                     sample={"writer": writer, "initial": st, "crash_after_op": k, "ops": collapse(events), "dir_after": got_st},
@@ -538,15 +582,18 @@ def explore(ck: Check, drv, writer: str, variant: int, depth: int, states, tmp_r
             if inv_pred(st):
                 if not safe_pred(got_st):
                     worst.append((hist, got_st))
+                else:
+                    gen_check(ck, drv, worst, hist, st, gens0, got_st, _g, FIRST_GEN, events)
                 if st[0] == "C" and k is not None and depth > 1:
                     frontier.append((d, got_st, hist))
                     continue
             shutil.rmtree(d, ignore_errors=True)
         shutil.rmtree(d0, ignore_errors=True)
-    gen = 3
+    gen = FIRST_GEN + 1
     for level in range(2, depth + 1):
         nxt, seen = [], set()
         for d, st, hist in frontier:
+            _st0, gens0 = classify(d, gen)
             keyh = (tag, st, tuple((h["from"], h["kill_after"]) for h in hist))
             full_events, _ = run_write(_clone(d, tmp_root), gen, None)
             for k in kill_points(full_events) + [None]:
@@ -564,6 +611,8 @@ def explore(ck: Check, drv, writer: str, variant: int, depth: int, states, tmp_r
                                     {"history": h2, "impl": got_st, "model": rep})
                 if not safe_pred(got_st):
                     worst.append((h2, got_st))
+                else:
+                    gen_check(ck, drv, worst, h2, st, gens0, got_st, _g, gen, events)
                 # continue only from abstractly new states: the model is a function of the abstract state and the
                 # correspondence above checks that the implementation is too
                 if level < depth and k is not None and got_st not in seen:
@@ -681,11 +730,13 @@ def run(ck: Check):
     ck.extra["depth_of_consecutive_interrupted_writes"] = depth
     # ---- verdict
     if worst:
-        worst.sort(key=lambda x: (len(x[0]), sum((h.get("kill_after") or h.get("position") or 10**6) for h in x[0])))
-        hist, st = worst[0]
-        what = ("checkpoint name refers to a truncated/corrupt file" if st[0] == "T" else "no complete checkpoint survives")
+        # plain safety failures (2-tuples) first, then generation-level ones; shortest history first
+        worst.sort(key=lambda x: (len(x), len(x[0]), sum((h.get("kill_after") or h.get("position") or 10**6) for h in x[0])))
+        hist, st = worst[0][0], worst[0][1]
+        why = worst[0][2] if len(worst[0]) > 2 else None
+        what = why or ("checkpoint name refers to a truncated/corrupt file" if st[0] == "T" else "no complete checkpoint survives")
         ck.violation(
-            hist[-1]["writer"] + ":" + ("truncated-name" if st[0] == "T" else "lost-checkpoint"),
+            hist[-1]["writer"] + ":" + ("stale-or-mixed-generation" if why else "truncated-name" if st[0] == "T" else "lost-checkpoint"),
             f"{what} after crash history {[(h['from'], h.get('kill_after', h.get('kill_before_syscall'))) for h in hist]} "
             f"({hist[-1].get('mode', 'python-level')} crash points) of {hist[-1]['writer']} -> {st}",
             {"history": hist, "dir_after": st, "broken_obligations": broken, "replay_cmd": "./check C18 --replay <this file>"},
@@ -726,17 +777,24 @@ def replay(path: str) -> int:
     elif hist[0].get("name_form"):
         CKNAME[0] = hist[0]["name_form"]
     try:
-        materialise(d, hist[0]["from"], {"name": 1, "new": 0, "old": 0})
-        gen = 2
+        materialise(d, hist[0]["from"], GEN0)
+        gen = FIRST_GEN
+        bad = False
         for h in hist:
+            st0, gens0 = classify(d, gen)
             if h.get("mode") == "strace":
                 run_write_strace(d, gen, tuple(h["kill_before_syscall"]) if h["kill_before_syscall"] else None)
             else:
                 run_write(d, gen, h["kill_after"])
+            st1, gens1 = classify(d, gen + 1)
+            w = []
+            gen_check(None, None, w, [h], st0, gens0, st1, gens1, gen)
+            print("after crash at", h.get("kill_after", h.get("kill_before_syscall")), "->", st1, gens1,
+                  ("GENERATIONS: " + w[0][2]) if w else "")
+            bad = bad or bool(w)
             gen += 1
-            print("after crash at", h.get("kill_after", h.get("kill_before_syscall")), "->", classify(d, gen)[0])
         st, _ = classify(d, gen)
-        bad = not safe_pred(st)
+        bad = bad or not safe_pred(st)
         print("final directory state (name,new,old):", st, "VIOLATES" if bad else "ok")
         return 1 if bad else 0
     finally:
